@@ -534,7 +534,31 @@ func (r *rewriter) rewriteStmt(s ast.Stmt) []ast.Stmt {
 	case *ast.SelectStmt:
 		// non-blocking select (checked elsewhere): the poll is a visible operation
 		r.count++
-		return []ast.Stmt{r.vsync("SelectPoint"), s}
+		var chans []ast.Expr
+		for _, c := range v.Body.List {
+			var ch ast.Expr
+			switch cm := c.(*ast.CommClause).Comm.(type) {
+			case *ast.ExprStmt:
+				if u, ok := cm.X.(*ast.UnaryExpr); ok && u.Op == token.ARROW {
+					ch = u.X
+				}
+			case *ast.AssignStmt:
+				if len(cm.Rhs) == 1 {
+					if u, ok := cm.Rhs[0].(*ast.UnaryExpr); ok && u.Op == token.ARROW {
+						ch = u.X
+					}
+				}
+			case *ast.SendStmt:
+				ch = cm.Chan
+			}
+			if ch != nil {
+				if !pure(ch) {
+					fatalf("%s: select on a channel expression with side effects", r.pos(ch))
+				}
+				chans = append(chans, ch)
+			}
+		}
+		return []ast.Stmt{r.vsync("SelectPoint", chans...), s}
 	case *ast.LabeledStmt:
 		inner := r.rewriteStmt(v.Stmt)
 		if len(inner) == 1 {
